@@ -201,6 +201,47 @@ def edge_guards(f, bb):
         need_f = not _reach_without_edge(f, entry, bb, b2, fbb)
         if need_t != need_f:
             out.append((b2, e, need_t))
+    out += _enum_switch_guards(f, bb)
+    return out
+
+
+def _enum_switch_guards(f, bb):
+    """`match x { V => .. }` says what `x == V` says.  For a switch on the discriminant of a field-less enum (a mode, a byte order):
+    the arm every path to bb takes yields the guard `<T as PartialEq>::eq(&x, &T::V)` = True, in the shape the `==` spelling has in
+    MIR, so that rules written for one spelling read the other; the otherwise arm yields `eq(..V..)` = False for every listed V."""
+    out = []
+    from .core import ADTS as adts
+    for b2 in f.reachable_blocks():
+        t = f.blocks[b2]['term']
+        if t['k'] != 'switch':
+            continue
+        d = f.expr_of_operand(t['discr'])
+        if not (isinstance(d, tuple) and d[0] == 'discr' and isinstance(d[2], str)):
+            continue
+        adt = adts.get(d[2])
+        if not adt or any(v.get('fields') for v in adt.get('variants', [])) or len(adt.get('variants', [])) < 2:
+            continue
+        names = [v['name'] for v in adt['variants']]
+        listed = [(v, tg) for v, tg in t['targets'] if isinstance(v, int) and v < len(names)]
+
+        def mk(vi):
+            return ('call', '<%s as core::cmp::PartialEq>::eq' % d[2],
+                    (('ref', False, d[1]), ('ref', False, ('const', {'pm': ['%s::%s' % (d[2], names[vi])], 'txt': '%s::%s' % (d[2], names[vi]), 'synthetic': True}))), b2)
+        taken = None
+        for v, tg in listed:
+            others = [tg2 for v2, tg2 in listed if v2 != v] + ([t['otherwise']] if t.get('otherwise') is not None else [])
+            if tg in others:
+                continue
+            if not _reach_without_edge(f, 0, bb, b2, tg):
+                out.append((b2, mk(v), True))
+                taken = v
+        ot = t.get('otherwise')
+        if taken is None and ot is not None and ot not in [tg for _, tg in listed] and not _reach_without_edge(f, 0, bb, b2, ot):
+            rest = [i for i in range(len(names)) if i not in [v for v, _ in listed]]
+            for v, _ in listed:
+                out.append((b2, mk(v), False))
+            if len(rest) == 1:
+                out.append((b2, mk(rest[0]), True))
     return out
 
 
